@@ -282,15 +282,18 @@ class StereoMolGraph(MolGraph):
         :param atoms: Atoms to be used for the subgraph
         :return: Subgraph
         """
+        atoms = tuple(atoms)  # may be a one-shot iterator
         new_graph = super().subgraph(atoms)
+        atoms = set(atoms)
 
         for central_atom, atoms_atom_stereo in self._atom_stereo.items():
             atoms_set = set((*atoms_atom_stereo.atoms, central_atom))
-            if all(atom in atoms for atom in atoms_set):
+            if all(atom in atoms for atom in atoms_set if atom is not None):
                 new_graph.set_atom_stereo(atoms_atom_stereo)
 
         for _bond, bond_stereo in self._bond_stereo.items():
-            if all(atom in atoms for atom in bond_stereo.atoms):
+            if all(atom in atoms for atom in bond_stereo.atoms
+                   if atom is not None):
                 new_graph.set_bond_stereo(bond_stereo)
         return new_graph
 
@@ -371,6 +374,7 @@ class StereoMolGraph(MolGraph):
         :return: Returns MolGraph
         """
 
+        mol_graphs = tuple(mol_graphs)  # may be a one-shot iterator
         graph = cls(super().compose(mol_graphs))
         for mol_graph in mol_graphs:
             graph._atom_stereo.update(cls(mol_graph)._atom_stereo)
